@@ -513,7 +513,7 @@ def real_clock_main():
         d.subscribe(src, handler)
 
         async def stopper():
-            await asyncio.sleep(0.6)
+            await asyncio.sleep(1.5)
             d.stop()
         st = asyncio.ensure_future(stopper())
         lg = logging.getLogger("basana")
@@ -546,7 +546,7 @@ def monitor_real_clock(tz, ran):
     for k in ("job_past", "job_soon", "event_past"):
         if k not in ran:
             out.append(("realtime:due-item-not-dispatched",
-                        f"TZ={tz}: {k} was due within 0.15 s of the start and had not run after 0.6 s of real time"))
+                        f"TZ={tz}: {k} was due within 0.15 s of the start and had not run after 1.5 s of real time"))
     for k in ("job_far", "job_tomorrow", "event_future"):
         if k in ran:
             out.append(("realtime:dispatched-early",
